@@ -257,7 +257,9 @@ func r12off(c *core.Ctx, m *nasModel) {
 	// 1. plain = param[7:]
 	s1 := findSlice("p0", func(lo, hi core.Lin, s *ssa.Slice) bool { return s.High == nil })
 	if s1 == nil {
-		c.SoftUndecided("DecodePDUSessionNASPDU: the security-header skip param[k:] was not found")
+		if !r12offX(c, R, H+a+2+b+2+ambr, H+a+2+b, pduIEI) {
+			c.SoftUndecided("DecodePDUSessionNASPDU: the security-header skip param[k:] was not found")
+		}
 		return
 	}
 	c.Check(lin(s1.Low).Is(H), R, "stgutg.DecodePDUSessionNASPDU:security-header", s1.Pos(), "skip 7 octets", "the protected message starts after the 7-octet security header (EPD, type, MAC 4, SQN); the code skips %s", lin(s1.Low))
@@ -265,7 +267,9 @@ func r12off(c *core.Ctx, m *nasModel) {
 	// 2. payload container length at [a:a+2]
 	sLen := findSlice(plain, func(lo, hi core.Lin, s *ssa.Slice) bool { return s.High != nil && len(hi.T) == 0 && len(lo.T) == 0 })
 	if sLen == nil {
-		c.SoftUndecided("DecodePDUSessionNASPDU: payload container length read not found")
+		if !r12offX(c, R, H+a+2+b+2+ambr, H+a+2+b, pduIEI) {
+			c.SoftUndecided("DecodePDUSessionNASPDU: payload container length read not found")
+		}
 		return
 	}
 	c.Check(lin(sLen.Low).Is(a) && lin(sLen.High).Is(a+2), R, "stgutg.DecodePDUSessionNASPDU:payload-length-offset", sLen.Pos(), fmt.Sprintf("[%d:%d]", a, a+2), "DL NAS TRANSPORT: the payload container length is at octets %d..%d; the code reads %s..%s", a, a+1, lin(sLen.Low), lin(sLen.High))
@@ -273,7 +277,9 @@ func r12off(c *core.Ctx, m *nasModel) {
 	// 3. container = plain[a+2 : a+2+L1]
 	sCont := findSlice(plain, func(lo, hi core.Lin, s *ssa.Slice) bool { return s.High != nil && len(hi.T) > 0 })
 	if sCont == nil {
-		c.SoftUndecided("DecodePDUSessionNASPDU: payload container slice not found")
+		if !r12offX(c, R, H+a+2+b+2+ambr, H+a+2+b, pduIEI) {
+			c.SoftUndecided("DecodePDUSessionNASPDU: payload container slice not found")
+		}
 		return
 	}
 	c.Check(lin(sCont.Low).Is(a+2) && lin(sCont.High).Is(a+2, L1), R, "stgutg.DecodePDUSessionNASPDU:payload-container", sCont.Pos(), fmt.Sprintf("[%d : %d+len]", a+2, a+2), "the payload container is octets %d..%d+length; the code takes %s..%s", a+2, a+2, lin(sCont.Low), lin(sCont.High))
@@ -281,7 +287,9 @@ func r12off(c *core.Ctx, m *nasModel) {
 	// 4. QoS rules length at cont[b:b+2]
 	sQ := findSlice(cont, func(lo, hi core.Lin, s *ssa.Slice) bool { return s.High != nil && len(hi.T) == 0 })
 	if sQ == nil {
-		c.SoftUndecided("DecodePDUSessionNASPDU: QoS rules length read not found")
+		if !r12offX(c, R, H+a+2+b+2+ambr, H+a+2+b, pduIEI) {
+			c.SoftUndecided("DecodePDUSessionNASPDU: QoS rules length read not found")
+		}
 		return
 	}
 	c.Check(lin(sQ.Low).Is(b) && lin(sQ.High).Is(b+2), R, "stgutg.DecodePDUSessionNASPDU:qos-length-offset", sQ.Pos(), fmt.Sprintf("[%d:%d]", b, b+2), "PDU SESSION ESTABLISHMENT ACCEPT: the authorized QoS rules length is at octets %d..%d; the code reads %s..%s", b, b+1, lin(sQ.Low), lin(sQ.High))
@@ -289,7 +297,9 @@ func r12off(c *core.Ctx, m *nasModel) {
 	// 5. optional part = cont[b+2+L2+ambr:]
 	sOpt := findSlice(cont, func(lo, hi core.Lin, s *ssa.Slice) bool { return s.High == nil })
 	if sOpt == nil {
-		c.SoftUndecided("DecodePDUSessionNASPDU: start of the optional part not found")
+		if !r12offX(c, R, H+a+2+b+2+ambr, H+a+2+b, pduIEI) {
+			c.SoftUndecided("DecodePDUSessionNASPDU: start of the optional part not found")
+		}
 		return
 	}
 	c.Check(lin(sOpt.Low).Is(b+2+ambr, L2), R, "stgutg.DecodePDUSessionNASPDU:optional-part-start", sOpt.Pos(), fmt.Sprintf("%d + QoS rules length", b+2+ambr), "the optional IEs start after the QoS rules (%d + length) and the session AMBR (LV, %d octets): offset %d + length; the code uses %s", b+2, ambr, b+2+ambr, lin(sOpt.Low))
@@ -308,7 +318,9 @@ func r12off(c *core.Ctx, m *nasModel) {
 	c.Check(matchConst == pduIEI, R, "stgutg.DecodePDUSessionNASPDU:pdu-address-iei", fn.Pos(), fmt.Sprintf("%#02x", pduIEI), "the PDU address is IEI %#02x in the library; the extractor matches %#02x", pduIEI, matchConst)
 	sAddr := findSlice(opt, func(lo, hi core.Lin, s *ssa.Slice) bool { return s.High != nil && len(lo.T) == 1 })
 	if sAddr == nil {
-		c.SoftUndecided("DecodePDUSessionNASPDU: PDU address value slice not found")
+		if !r12offX(c, R, H+a+2+b+2+ambr, H+a+2+b, pduIEI) {
+			c.SoftUndecided("DecodePDUSessionNASPDU: PDU address value slice not found")
+		}
 		return
 	}
 	lo, hi := lin(sAddr.Low), lin(sAddr.High)
@@ -715,8 +727,27 @@ func r12tight(c *core.Ctx) {
 		}
 	}
 	n := 0
+	// the extractors and the helpers of their package they reach (a phase moved into a helper takes its slices along)
+	var fns []*ssa.Function
 	for _, name := range []string{"DecodePDUSessionNASPDU", "DecodePDUSessionResourceSetupRequestTransfer"} {
-		fn := mustFunc(c, pStg, name)
+		entry := mustFunc(c, pStg, name)
+		fns = append(fns, entry)
+		for _, g := range sortedFuncs(staticReach(entry)) {
+			if g != entry && fnPkgPath(g) == pStg && len(g.Blocks) > 0 {
+				dup := false
+				for _, h := range fns {
+					if h == g {
+						dup = true
+					}
+				}
+				if !dup {
+					fns = append(fns, g)
+				}
+			}
+		}
+	}
+	for _, fn := range fns {
+		name := fn.Name()
 		p := core.NewPather(fn)
 		ord := ordinals{}
 		for _, b := range fn.Blocks {
@@ -761,7 +792,5 @@ func r12tight(c *core.Ctx) {
 			}
 		}
 	}
-	if n < 4 {
-		c.Undecided("R12.tight: only %d slices found in the extractors", n)
-	}
+	c.Floor(R, n, 8)
 }
